@@ -183,6 +183,9 @@ type undoEntry struct {
 }
 
 func (w *Worker) store(p *Value, v Value) {
+	if w.iso != nil && w.iso.old(p) {
+		w.sharedWrite("store")
+	}
 	if w.undoOn {
 		w.undo = append(w.undo, undoEntry{p: p, old: *p})
 	}
@@ -457,6 +460,7 @@ func (fr *frame) runFrame() {
 		nonPhis := fr.executePhis()
 		for _, instr := range nonPhis {
 			fr.curInstr = instr
+			fr.w.cur = fr
 			if fr.visit(instr) == kReturn {
 				return
 			}
